@@ -6,6 +6,7 @@ import pass_checks
 import tagged_checks
 import dis_checks
 import thr_checks
+import sub_checks
 
 CORE_A = ["Model/Base.v", "Model/Dispatch.v", "Model/Routing.v", "Model/DispLane.v", "Gen/DispatchSrc.v", "Gen/ConvSrc.v",
           "Proofs/DispatchProofs.v", "Proofs/RoutingProofs.v", "Proofs/SrcObligations.v"]
@@ -65,6 +66,10 @@ def _c19(v, b, tier):
     thr_checks.check_c19(v, b.t1_summary, 40 * SIZES[tier], 6 * SIZES[tier])
 
 
+def _c14(v, b, tier):
+    sub_checks.check_c14(v, b.t1_summary, 30 * SIZES[tier])
+
+
 def _c10(v, b, tier):
     tpl_checks.check_c10(v, b.t1_summary, 60 * SIZES[tier], 5)
 
@@ -111,6 +116,13 @@ REGISTRY = {
                     "both directions; every structure-direction schedule is run twice, with the working set as in the source and with it rebound to a "
                     "shared object (what-if), and compared with the model under the matching scope; plus free-running stress rounds (12 threads x 2 "
                     "object graphs on one fresh converter) against a sequential reference; non-trivial = schedule of >= 3 steps"},
+    "C14": {"props_file": "Props/C14.v", "files": ["Model/Base.v", "Model/Disambig.v", "Model/Subclasses.v", "Gen/DisSrc.v", "Proofs/DisambigProofs.v",
+                                                   "Proofs/SubclassesProofs.v", "Props/C14.v"],
+            "run": _c14, "t1_sections": ["disambig"],
+            "rule": "random class trees of 2-7 attrs classes (depth <= 3, own attributes 0-2 drawn from 8 names, required or defaulted, field-less "
+                    "subclasses included), forbid_extra_keys and validation mode random, 25% with an explicit shuffled subclasses tuple; both the "
+                    "automatic variant and the tagged-union strategy; every (K, x) pair with x an instance of K or a descendant; non-trivial = tree of "
+                    ">= 3 classes; distinct = (tree, strategy, K, x)"},
     "C10": {"props_file": "Props/C10.v", "files": CORE_TPL + ["Props/C10.v"], "run": _c10, "rule": RULE_TPL, "t1_sections": ["gen"]},
     "C07": {"props_file": "Props/C07.v", "files": CORE_A + ["Props/C07.v"], "run": _c07, "rule": RULE_DISP},
     "C08": {"props_file": "Props/C08.v", "files": CORE_A + ["Props/C08.v"], "run": _c08, "rule": RULE_DISP},
